@@ -819,3 +819,233 @@ func ruleExpire(r *Report) {
 		hx.Check(ok && len(returnsOf(vac)) >= 1, "(*column.Collection).vacuum/stop", r.P.Pos(vac.Pos()), "returns on ctx.Done()", "the cleanup goroutine does not stop when the collection's context is cancelled")
 	}
 }
+
+// ruleSmallAgreements: a handful of one-line agreements between two places that the properties
+// rest on and that nothing else in the rule set pins down.
+func ruleChunkAlloc(r *Report) {
+	h := r.Rule("U.alloc", "S", "a column block is allocated with chunkSize/64 presence words and chunkSize values, for every block up to and including the block of the offset to cover", 1)
+	fn := r.Anchor("(*column.chunks[T]).Grow")
+	if fn == nil {
+		return
+	}
+	cs, _ := r.P.ConstVal("column", "chunkSize")
+	var size int64
+	fmt.Sscanf(cs, "%d", &size)
+	var fillLen, dataLen int64 = -1, -1
+	allInstrs(fn, func(ins ssa.Instruction) {
+		switch x := ins.(type) {
+		case *ssa.MakeSlice:
+			if c, ok := constInt(x.Len); ok {
+				if isBitmap(x.Type()) {
+					fillLen = c
+				} else {
+					dataLen = c
+				}
+			}
+		case *ssa.Slice:
+			if al, ok := x.X.(*ssa.Alloc); ok {
+				if arr, ok := al.Type().Underlying().(*types.Pointer).Elem().Underlying().(*types.Array); ok {
+					if isBitmap(x.Type()) {
+						fillLen = arr.Len()
+					} else if arr.Len() > 1 {
+						dataLen = arr.Len()
+					}
+				}
+			}
+		}
+	})
+	// loop: i <= ChunkAt(idx)
+	bound := false
+	allInstrs(fn, func(ins ssa.Instruction) {
+		if bo, ok := ins.(*ssa.BinOp); ok && bo.Op == token.LEQ {
+			if dependsOn(bo.Y, func(v ssa.Value) bool {
+				c, isC := v.(*ssa.Call)
+				return isC && calleeIs(&c.Call, "commit.ChunkAt")
+			}, 4) {
+				bound = true
+			}
+		}
+	})
+	h.Check(fillLen == size/64 && dataLen == size && bound, "(*column.chunks[T]).Grow", r.P.Pos(fn.Pos()), "chunkSize/64 words + chunkSize values per block, blocks 0..ChunkAt(idx)", fmt.Sprintf("chunks.Grow allocates %d presence words and %d values per block (expected %d and %d) or does not cover the block of the requested offset", fillLen, dataLen, size/64, size))
+}
+
+func ruleCountAndCache(r *Report) {
+	h := r.Rule("C04.count", "P+S", "Count initialises the selection before counting it; DeleteAt refuses offsets outside the selection; the enum filter's one-entry cache starts with a location no string can have", 3)
+	if fn := r.Anchor("(*column.Txn).Count"); fn != nil {
+		ini := callsTo(fn, false, "(*column.Txn).initialize")
+		cnt := callsWhere(fn, func(_ ssa.Instruction, cc *ssa.CallCommon) bool {
+			if !methodOn(cc, "github.com/kelindar/bitmap", "Bitmap", "Count") {
+				return false
+			}
+			fr, ok := loadedField(cc.Args[0])
+			return ok && fr.Struct == "column.Txn" && fr.Field == "index"
+		})
+		h.Check(len(ini) == 1 && len(cnt) == 1 && precedes(ini[0], cnt[0]), "(*column.Txn).Count", r.P.Pos(fn.Pos()), "initialize ≺ index.Count()", "Count does not count the initialised selection")
+	}
+	if fn := r.Anchor("(*column.Txn).DeleteAt"); fn != nil {
+		del := callsTo(fn, false, "(*column.Txn).deleteAt")
+		ok := len(del) == 1 && !edgeGuarded(del[0].Block(), func(c ssa.Value) (bool, bool) { return false, false })
+		if ok {
+			ok = edgeGuarded(del[0].Block(), func(c ssa.Value) (bool, bool) {
+				call, isC := c.(*ssa.Call)
+				if !isC || !methodOn(&call.Call, "github.com/kelindar/bitmap", "Bitmap", "Contains") {
+					return false, false
+				}
+				fr, isF := loadedField(call.Call.Args[0])
+				if !isF || fr.Field != "index" || !sameExpr(call.Call.Args[1], fn.Params[1]) {
+					return false, false
+				}
+				return true, true
+			})
+			dc, _, _ := callCommon(del[0])
+			ok = ok && sameExpr(dc.Args[1], fn.Params[1])
+		}
+		h.Check(ok, "(*column.Txn).DeleteAt", r.P.Pos(fn.Pos()), "deleteAt(idx) ⇐ idx ∈ selection", "DeleteAt queues a delete for an offset that is not in the transaction's selection (not a live row)")
+	}
+	if fn := r.Anchor("(*column.columnEnum).FilterString"); fn != nil {
+		ok := false
+		allInstrs(fn, func(ins ssa.Instruction) {
+			st, isSt := ins.(*ssa.Store)
+			if !isSt {
+				return
+			}
+			if fa, isFA := st.Addr.(*ssa.FieldAddr); isFA {
+				if stt, isS := fa.X.Type().Underlying().(*types.Pointer).Elem().Underlying().(*types.Struct); isS && stt.Field(fa.Field).Name() == "index" {
+					if c, isC := constInt(st.Val); isC && c == 0xffffffff {
+						ok = true
+					}
+				}
+			}
+		})
+		h.Check(ok, "(*column.columnEnum).FilterString/cache", r.P.Pos(fn.Pos()), "cache starts at location MaxUint32", "the enum filter's cache does not start with an impossible location: the first row whose string has that location gets the cached (false) verdict without the predicate being evaluated")
+	}
+}
+
+func ruleKeyWiring(r *Report) {
+	h := r.Rule("C12.wiring", "S", "creating a key column registers it as the collection's primary key under the column's name (the name the key operations buffer their writes under), and a second key column is refused", 2)
+	if fn := r.Anchor("(*column.Collection).createColumnKey"); fn != nil {
+		pk := fieldsStoredOn(fn, "column.Collection")["pk"]
+		nm := fieldsStoredOn(fn, "column.columnKey")["name"]
+		ok := len(pk) == 1 && sameExpr(pk[0], fn.Params[2]) && len(nm) == 1 && sameExpr(nm[0], fn.Params[1])
+		refuse := false
+		for _, ret := range returnsOf(fn) {
+			if cl, isC := ret.Results[0].(*ssa.Call); isC && calleeIs(&cl.Call, "fmt.Errorf") {
+				refuse = edgeGuarded(ret.Block(), func(c ssa.Value) (bool, bool) {
+					x, nonNil, isN := nilTest(c)
+					if !isN {
+						return false, false
+					}
+					if fr, isF := loadedField(x); isF && fr.Field == "pk" {
+						return true, nonNil
+					}
+					return false, false
+				})
+			}
+		}
+		h.Check(ok && refuse, "(*column.Collection).createColumnKey", r.P.Pos(fn.Pos()), "pk := column; pk.name := columnName; second key refused", "the key column is not registered as the primary key under its own name, or a second key column is accepted")
+	}
+	if fn := r.Anchor("(*column.Collection).CreateColumn"); fn != nil {
+		ck := callsTo(fn, false, "(*column.Collection).createColumnKey")
+		ok := len(ck) == 1
+		if ok {
+			cc, _, _ := callCommon(ck[0])
+			ok = sameExpr(cc.Args[1], fn.Params[1])
+		}
+		h.Check(ok, "(*column.Collection).CreateColumn/key", r.P.Pos(fn.Pos()), "key columns go through createColumnKey(columnName, …)", "CreateColumn does not register a key column under the name it was created with")
+	}
+}
+
+func ruleReaderState(r *Report) {
+	h := r.Rule("C05.reader", "S", "(re)positioning a reader resets its whole iteration state: use() stores buffer, read position, value bounds, offset and operation type; Rewind restarts from the section's start offset; Seek binds the parent buffer", 3)
+	if fn := r.Anchor("(*commit.Reader).use"); fn != nil {
+		st := fieldsStoredOn(fn, "commit.Reader")
+		var missing []string
+		for _, f := range []string{"buffer", "last", "i0", "i1", "Offset", "headString", "Type"} {
+			if len(st[f]) == 0 {
+				missing = append(missing, f)
+			}
+		}
+		zero := true
+		for _, f := range []string{"last", "i0", "i1", "Offset"} {
+			for _, v := range st[f] {
+				if c, isC := constInt(v); !isC || c != 0 {
+					zero = false
+				}
+			}
+		}
+		h.Check(len(missing) == 0 && zero, "(*commit.Reader).use", r.P.Pos(fn.Pos()), "all iteration fields reset", "Reader.use leaves iteration state from the previous section: "+strings.Join(missing, ", "))
+	}
+	if fn := r.Anchor("(*commit.Reader).Rewind"); fn != nil {
+		use := callsTo(fn, false, "(*commit.Reader).use")
+		ok := len(use) == 1
+		offOK := false
+		allInstrs(fn, func(ins ssa.Instruction) {
+			if st, isSt := ins.(*ssa.Store); isSt {
+				if fr, isF := fieldOf(st.Addr); isF && fr.Field == "Offset" {
+					if f2, isF2 := loadedField(st.Val); isF2 && f2.Field == "start" && len(use) == 1 && precedes(use[0], ins) {
+						offOK = true
+					}
+				}
+			}
+		})
+		h.Check(ok && offOK, "(*commit.Reader).Rewind", r.P.Pos(fn.Pos()), "use(buffer) then Offset := start", "Rewind does not restart the offset chain from the section's start offset")
+	}
+	if fn := r.Anchor("(*commit.Reader).Seek"); fn != nil {
+		par := fieldsStoredOn(fn, "commit.Reader")["parent"]
+		ok := len(par) == 1 && sameExpr(par[0], fn.Params[1]) && len(callsTo(fn, false, "(*commit.Reader).use")) == 1
+		h.Check(ok, "(*commit.Reader).Seek", r.P.Pos(fn.Pos()), "parent := buffer; use(buffer.buffer)", "Seek does not bind the reader to the buffer it is given")
+	}
+}
+
+func ruleStateVersion(r *Report) {
+	h := r.Rule("C07.version", "S", "the schema version the state writer emits is the one the state reader accepts", 1)
+	ws, rs := r.Anchor("(*column.Collection).writeState"), r.Anchor("(*column.Collection).readState")
+	if ws == nil || rs == nil {
+		return
+	}
+	var wv, rv int64 = -1, -2
+	// first WriteUvarint with a constant argument in writeState itself
+	for _, c := range callsTo(ws, false, "(*iostream.Writer).WriteUvarint") {
+		cc, _, _ := callCommon(c)
+		if v, ok := constInt(cc.Args[1]); ok && wv < 0 {
+			wv = v
+		}
+	}
+	allInstrs(rs, func(ins ssa.Instruction) {
+		if bo, ok := ins.(*ssa.BinOp); ok && (bo.Op == token.NEQ || bo.Op == token.EQL) {
+			if v, isC := constInt(bo.Y); isC {
+				if cl, isEx := extractOf(bo.X, 0); isEx && calleeIs(&cl.Call, "(*iostream.Reader).ReadUvarint") {
+					rv = v
+				}
+			}
+		}
+	})
+	h.Check(wv == rv, "version", r.P.Pos(ws.Pos()), fmt.Sprintf("writer and reader agree on version %d", wv), fmt.Sprintf("the state writer emits version %d, the reader accepts %d: no snapshot can be restored", wv, rv))
+}
+
+func ruleTTLNames(r *Report) {
+	h := r.Rule("C17.names", "S", "the TTL accessor reads and writes the expire column: reader and buffer are both obtained for the constant name the column was created under", 1)
+	fn := r.Anchor("(*column.Txn).TTL")
+	if fn == nil {
+		return
+	}
+	okR, okW := false, false
+	allInstrs(fn, func(ins ssa.Instruction) {
+		cc, _, _ := callCommon(ins)
+		if cc == nil || cc.StaticCallee() == nil {
+			return
+		}
+		n := calleeShort(cc)
+		if strings.HasPrefix(n, "column.readNumberOf") {
+			if s, ok := constString(cc.Args[1]); ok && s == "expire" {
+				okR = true
+			}
+		}
+		if n == "(*column.Txn).bufferFor" {
+			if s, ok := constString(cc.Args[1]); ok && s == "expire" {
+				okW = true
+			}
+		}
+	})
+	h.Check(okR && okW, "(*column.Txn).TTL", r.P.Pos(fn.Pos()), "reader and writer both on \"expire\"", "the TTL accessor does not read and write the expire column")
+}
